@@ -27,6 +27,43 @@ func (env *SpecEnv) ghostCall(name string, x *ast.CallExpr) (Val, bool) {
 		vc.freshN++
 		k := Var(fmt.Sprintf("k!q%d", vc.freshN), SInt)
 		return boolVal(And(Eq(a.Len(), b.Len()), Forall([]*Term{k}, Implies(And(Le(Zero, k), Lt(k, a.Len())), Eq(rd(env.st, a, k), rd(env.old, b, k)))))), true
+	case "faddr":
+		// faddr(p, "field"): identity of &p.field
+		pv := env.eval(x.Args[0])
+		if bl, ok := x.Args[1].(*ast.BasicLit); ok && kindOf(pv.T) == KPtr {
+			lo, _, _, ok := fieldRange(elemTypeOf(pv.T), strings.Trim(bl.Value, `"`))
+			if ok {
+				return intVal(App("box_ptr", SInt, App("fieldptr", SInt, pv.C[0], pv.C[1], IntK(int64(lo))), Zero)), true
+			}
+		}
+		env.errorf("bad faddr")
+		return intVal(Zero), true
+	case "evres":
+		i := env.eval(x.Args[0]).C[0]
+		k := int64(0)
+		if len(x.Args) > 1 {
+			k, _ = env.eval(x.Args[1]).C[0].Int64()
+		}
+		return intVal(Select(Select(vc.heapIn(env.st, "$TraceArgs", SMem), i), IntK(100+k))), true
+	case "forallk":
+		// forallk(k, P): unbounded integer quantifier
+		idn, ok := x.Args[0].(*ast.Ident)
+		if !ok {
+			env.errorf("forallk: identifier expected")
+			return boolVal(True), true
+		}
+		vc.freshN++
+		k := Var(fmt.Sprintf("%s!q%d", idn.Name, vc.freshN), SInt)
+		n := env.withNames(map[string]Val{idn.Name: intVal(k)})
+		body := n.eval(x.Args[1])
+		env.failed = env.failed || n.failed
+		return boolVal(Forall([]*Term{k}, body.C[0])), true
+	case "methodval":
+		// methodval("full method name", recv): the bound method value
+		if bl, ok := x.Args[0].(*ast.BasicLit); ok {
+			rv := env.eval(x.Args[1])
+			return intVal(App("bound:"+strings.Trim(bl.Value, `"`), SInt, rv.C...)), true
+		}
 	case "tracelen":
 		return intVal(vc.heapIn(env.st, "$TraceLen", SInt)), true
 	case "ev":
@@ -43,9 +80,9 @@ func (env *SpecEnv) ghostCall(name string, x *ast.CallExpr) (Val, bool) {
 			return intVal(IntK(eventCode(strings.Trim(bl.Value, `"`)))), true
 		}
 	case "id":
-		// id(x): scalar identity of a reference-like value (pointer -> boxed, iface -> ival, func -> fn)
+		// id(x): scalar identity of a reference-like value (pointer -> boxed, iface -> ival, func -> fn, bytes/string -> content key)
 		v := env.eval(x.Args[0])
-		return intVal(vc.identityOf(v)), true
+		return intVal(vc.identityOfIn(env.st, v)), true
 	case "dyn":
 		v := env.eval(x.Args[0])
 		return intVal(v.C[0]), true
@@ -60,7 +97,23 @@ func (env *SpecEnv) ghostCall(name string, x *ast.CallExpr) (Val, bool) {
 	return Val{}, false
 }
 
+func (vc *VC) identityOfIn(st *State, v Val) *Term {
+	if v.T != nil && kindOf(v.T) == KSlice && kindOf(elemTypeOf(v.T)) == KInt && st != nil {
+		return vc.bytesKey(st, v)
+	}
+	if v.T != nil && kindOf(v.T) == KString {
+		return vc.stringKey(v)
+	}
+	return vc.identityOf(v)
+}
+
 func (vc *VC) identityOf(v Val) *Term {
+	if v.T == nil {
+		if len(v.C) > 0 && v.C[0].Sort == SInt {
+			return v.C[0]
+		}
+		return Zero
+	}
 	switch kindOf(v.T) {
 	case KPtr:
 		return App("box_ptr", SInt, v.C[0], v.C[1])
@@ -84,10 +137,13 @@ func (vc *VC) identityOf(v Val) *Term {
 
 // bytesKey: the map key of string(b); determined by contents -> uninterpreted over (array contents, off, len)
 func (vc *VC) bytesKey(st *State, b Val) *Term {
+	if o, ok := vc.origins[b.C[0].id]; ok && b.C[1] == Zero {
+		return App("ckey", SInt, o.row, o.off, b.C[2])
+	}
 	et := elemTypeOf(b.T)
 	cp := layout(et)[0]
 	h := vc.heap(st, heapNameFor(et, cp), heapSort(cp))
-	return App("bkey", SInt, Select(h, b.Arr()), b.Off(), b.Len())
+	return App("ckey", SInt, Select(h, b.Arr()), b.Off(), b.Len())
 }
 
 var eventCodes = map[string]int64{}
@@ -99,6 +155,22 @@ func eventCode(name string) int64 {
 		eventCodes[name] = c
 	}
 	return c
+}
+
+func (vc *VC) emitEventSparse(st *State, name string, args []*Term) {
+	n := vc.heap(st, "$TraceLen", SInt)
+	tr := vc.heap(st, "$Trace", SArr)
+	st.heaps["$Trace"] = Store(tr, n, IntK(eventCode(name)))
+	ta := vc.heap(st, "$TraceArgs", SMem)
+	row := Select(ta, n)
+	for i, a := range args {
+		if a.Sort != SInt || (i < 100 && a == Zero && i >= 8) {
+			continue
+		}
+		row = Store(row, IntK(int64(i)), a)
+	}
+	st.heaps["$TraceArgs"] = Store(ta, n, row)
+	st.heaps["$TraceLen"] = Add(n, One)
 }
 
 // emitEvent appends an event to the ghost trace.
@@ -422,8 +494,8 @@ func (vc *VC) adjustRecv(recv Val, sel *types.Selection, sig *types.Signature, n
 				}
 				if ok && loc.kind == 1 {
 					// pointer to a struct field inside a heap object: (arr, idx) with field offset is not representable
-					vc.abstraction("pointer receiver on embedded field value (copy-in/copy-out)")
-					return Val{T: want, C: []*Term{vc.fresh("fieldptr", SInt), Zero}}
+					// pointer to a field of a heap object: identity only (the field's own state is not modelled through it)
+					return Val{T: want, C: []*Term{App("fieldptr", SInt, loc.arr, loc.idx, IntK(int64(loc.lo))), Zero}}
 				}
 			}
 		}
@@ -577,14 +649,11 @@ func (vc *VC) applyContract(x ast.Node, con *Contract, full string, sig *types.S
 		t := vc.specBool(envPre, r.Expr)
 		vc.oblige(st, "call.pre", x, fmt.Sprintf("%s requires %s", short, clip(r.Text)), t)
 	}
-	// events
+	// events: every non-pure call is one event of the caller's trace (arguments by identity / content key)
+	var evArgs []*Term
 	if !con.Pure {
-		if ev := traceEventName(con, full); ev != "" {
-			var targs []*Term
-			for _, a := range args {
-				targs = append(targs, vc.identityOf(a))
-			}
-			vc.emitEvent(st, ev, targs)
+		for _, a := range args {
+			evArgs = append(evArgs, vc.identityOfIn(st, a))
 		}
 	}
 	// havoc modifies
@@ -642,6 +711,15 @@ func (vc *VC) applyContract(x ast.Node, con *Contract, full string, sig *types.S
 			vc.typingVal(res)
 			post[rnames[0]] = res
 		}
+	}
+	if !con.Pure {
+		for len(evArgs) < 100 {
+			evArgs = append(evArgs, Zero)
+		}
+		for i := 0; i < sig.Results().Len(); i++ {
+			evArgs = append(evArgs, vc.identityOfIn(st, post[rnames[i]]))
+		}
+		vc.emitEventSparse(st, "Call:"+full, evArgs)
 	}
 	envPost := &SpecEnv{vc: vc, st: st, old: pre, names: post, pkg: calleePkg, where: "ensures of " + full}
 	for _, e := range con.Ensures {
@@ -795,7 +873,7 @@ func (vc *VC) inlineCall(x ast.Node, fi *FuncInfo, args []Val, st *State, rt typ
 	sub := &VC{prog: vc.prog, fi: fi, pkg: fi.Pkg, info: fi.Pkg.TypesInfo, con: nil, unit: vc.unit, log: vc.log, obls: vc.obls,
 		freshN: vc.freshN, occ: vc.occ, nodeOcc: vc.nodeOcc, entry: vc.entry, abstr: vc.abstr, heapSorts: vc.heapSorts,
 		rangeFacts: vc.rangeFacts, globalsInit: vc.globalsInit, addrTaken: map[types.Object]bool{}, callDepth: vc.callDepth + 1,
-		assumedContracts: vc.assumedContracts, sweep: true}
+		assumedContracts: vc.assumedContracts, sweep: true, origins: vc.origins, ghost: vc.ghost}
 	sub.loopOrd, _ = numberLoops(fi.Decl.Body)
 	inner := &State{pc: st.pc, vars: map[types.Object]Val{}, heaps: st.heaps}
 	sig := fi.Obj.Type().(*types.Signature)
